@@ -11,7 +11,7 @@ using namespace vf;
 static const int N = 1024, N2 = 2048;
 
 struct Cf { int k, l, Bgbit; };
-static const Cf CFS[] = {{2, 2, 10}, {1, 2, 10}, {1, 3, 7}, {2, 4, 8}, {1, 4, 8}, {1, 8, 4}, {2, 3, 7}, {1, 2, 16}, {1, 1, 8}};
+static const Cf CFS[] = {{2, 2, 10}, {1, 2, 10}, {1, 3, 7}, {2, 4, 8}, {1, 4, 8}, {1, 8, 4}, {2, 3, 7}, {1, 2, 16}, {1, 1, 8}, {1, 32, 1}, {1, 16, 2}, {1, 2, 15}, {3, 2, 10}, {1, 20, 1}};
 
 static void msg_poly(int32_t *m, int kind, int j) { memset(m, 0, N * 4); uint64_t x = 5 + kind;
     switch (kind) { case 0: break; case 1: m[0] = 1; break; case 2: m[0] = -1; break; case 3: m[j] = 1; break; case 4: m[0] = 1; m[1] = 1; break; case 5: m[N - 1] = -1; break; default: for (int i = 0; i < N; i++) { uint64_t r = splitmix(x) % 16; m[i] = r == 0 ? 1 : r == 1 ? -1 : r == 2 ? 2 : 0; } } }
